@@ -12,15 +12,16 @@ from harness.props import c06
 from harness.validate import validate
 
 FLAGS = {"twin_diverged", "repeat", "none_premature", "initial_order", "scheduler_raised", "outside_domain"}
-DILL_KINDS = ["fifo_random", "fifo_random_dup", "fifo_grid", "hb_random", "hb_random_promo", "synchb", "dehb", "pbt", "regevo"]
+DILL_KINDS = ["fifo_random", "fifo_random_dup", "fifo_grid", "hb_random", "hb_random_promo", "synchb", "dehb", "pbt", "regevo",
+              "hbt_pasha", "hbt_rush_stopping", "hbt_rush_promotion", "hbt_cost_promotion", "moasha", "median"]
 STATE_KINDS = ["fifo_random", "fifo_random_dup", "fifo_grid", "hb_random"]
 GP_DILL = ["fifo_bayesopt", "hb_bayesopt"]
 GP_STATE = ["fifo_bayesopt", "hb_bayesopt"]
 
 
 def twin_run(kind, name, p2e, seed, hist, how):
-    a = D.Episode(kind, name, p2e, seed)
-    b = D.Episode(kind, name, p2e, seed)
+    a = D.Episode(kind, name, p2e, seed, own_global_rng=True)
+    b = D.Episode(kind, name, p2e, seed, own_global_rng=True)
     for step in hist:
         if step["a"] == "Restore":
             try:
